@@ -68,7 +68,7 @@ def base_cases():
              content=b"a: 1\n---\nrest\n", mode=0o644, ext=".md"),
         dict(name="init-error", expr=".a", flags=["-n"], content=b"a: 1\n", mode=0o644, cls="init"),
         dict(name="init-error-format", expr=".a", flags=["-o=nope"], content=b"a: 1\n", mode=0o644, cls="init"),
-        dict(name="config-panic", expr=".a", flags=["-p=shell"], content=b"a: 1\n", mode=0o644, cls="config_panic"),
+        dict(name="config-error", expr=".a", flags=["-p=shell"], content=b"a: 1\n", mode=0o644, cls="config_err"),
         dict(name="no-result", expr="select(.a == 7)", content=b"a: 1\n", mode=0o644),
         dict(name="big-file", expr=".key0007 = 1", content=big, mode=0o444),
         dict(name="mode-755", expr="del(.b)", content=b"#!x\na: 1\nb: 2\n", mode=0o755),
